@@ -230,7 +230,7 @@ def typed_case(item):
             desc, read, src = dump(copy.deepcopy(resources), cfg['format'], cfg['target'], root, **opts)
         except Exception as e:
             return dict(ok=False, why='dump raised %s: %s' % (type(e).__name__, str(e)[:200]), cfg=cfg)
-        problems, files = [], []
+        problems, files, kf_crlf = [], [], []
         alpha_ok = all([f[0] for f in fields] == sorted(f[0] for f in fields) for _, fields, _ in resources)
         # structure of the written descriptor
         if [x['name'] for x in desc['resources']] != [n for n, _, _ in resources]:
@@ -257,6 +257,10 @@ def typed_case(item):
                     for i, (a, b) in enumerate(zip(rows, res[ri])):
                         for (n, tp, _) in fields:
                             if not same(tp, a[n], b.get(n), cfg['format']):
+                                if (cfg['format'] == 'csv' and tp == 'string' and isinstance(a[n], str) and '\r\n' in a[n]
+                                        and a[n].replace('\r\n', '\n') == b.get(n)):
+                                    kf_crlf.append([name, i, n])        # known finding: the csv reader opens the file with universal newlines
+                                    continue
                                 problems.append('load(): %s row %d field %s (%s): dumped %r, loaded %r' % (name, i, n, tp, a[n], b.get(n)))
             # the data file itself
             try:
@@ -269,7 +273,7 @@ def typed_case(item):
                               spec=[(f[0], f[1]) for f in fields]))
         if load_err:
             problems.append('load() raised ' + load_err)
-        return dict(ok=True, problems=problems, files=files, cfg=cfg, alpha_ok=alpha_ok, seed=item['seed'])
+        return dict(ok=True, problems=problems, files=files, cfg=cfg, alpha_ok=alpha_ok, seed=item['seed'], kf_crlf=kf_crlf)
     finally:
         shutil.rmtree(root, ignore_errors=True)
 
@@ -383,6 +387,8 @@ def run():
                             problems.append('data file: resource %d row %d field %s (%s): dumped %r, file decodes to %r' % (f['ri'], i, n, fd['type'], a[n], val))
             except Exception as e:
                 problems.append('data file of resource %d cannot be decoded with the recorded properties: %s: %s' % (f['ri'], type(e).__name__, str(e)[:150]))
+        if x.get('kf_crlf'):
+            rep.known(KF_CRLF, 'CR LF inside a cell comes back from load() as LF', dict(cfg=it['cfg'], seed=it['seed'], cells=x['kf_crlf'][:3]))
         if problems:
             cfg = it['cfg']
             only_load = all(p.startswith('load()') or p.startswith('loaded') for p in problems)
